@@ -8,4 +8,5 @@ MCRecAS == @RECAS@
 MCVals == @VALS@
 MCRes == @RES@
 MCBounds == <<5, 10>>
+MCScopes == @SCOPES@
 =============================================================================
